@@ -112,12 +112,12 @@ PROPS = {
         level_note=COMMON_NOTE + ' Output equality with the splice definition is decided by the bounded stand-in only (the closure is opaque to the proof); the &str variants are covered by the bounded stand-in only.',
     ),
     'C13': dict(
-        components=[('kani', 'gates_leaf', {})] + [(V, 'u1_search', {}), (V, 'u1_overlap', {}), (V, 'u1_iter', {}), b('cfgprod')],
+        components=[(V, 'u6_gates', {})] + [('kani', 'gates_leaf', {})] + [(V, 'u1_search', {}), (V, 'u1_overlap', {}), (V, 'u1_iter', {}), b('cfgprod')],
         level_text='Proof (Verus): try_find_fwd / try_find_overlapping_fwd / FindIter::new fail exactly when start_state has no start state for the requested anchoring (and, for overlapping, when the match kind is not standard), independent of the haystack; a constructed FindIter never hits its expect. Exhaustive stand-in: the full finite product match kind x start kind x anchoring x engine kind x 17 APIs x empty-pattern on the real code.',
         level_note=COMMON_NOTE,
     ),
     'C14': dict(
-        components=[(V, 'u1_search', {}), sem('std,lf,ll', 'earliest,ismatch,anch,spans', families='small')],
+        components=[(V, 'u6_gates', {})] + [(V, 'u1_search', {}), sem('std,lf,ll', 'earliest,ismatch,anch,spans', families='small')],
         level_text='Proof (Verus): the earliest flag is forwarded to the loop, which returns at the first match state (find_post: with a prefilter the normal answer is also allowed). Bounded stand-in: earliest result is a genuine occurrence ending no later than the normal answer and is Some iff the normal one is; is_match iff an occurrence exists.',
         level_note=COMMON_NOTE,
     ),
@@ -127,8 +127,8 @@ PROPS = {
         level_note=COMMON_NOTE + ' Raw-pointer code (Teddy, is_prefix_raw) is covered by bounded runs only until the Kani unit lands.',
     ),
     'C16': dict(
-        components=[(V, 'u1_search', {}), (V, 'u3_dfa', {}), b('ac', families='small,abc,ci'), b('repr')],
-        level_text='The Automaton contract AC is the hypothesis the proved search loops consume (Verus). For dfa::DFA the accessors themselves are proved (u3_dfa) under the representation invariant dfa_wf: next_state never indexes out of bounds and returns a state id, the dead state is absorbing, is_dead/is_match/is_special/is_start are the id comparisons of the layout, dead and match imply special, match_len/match_pattern index a non-empty list of valid pattern ids, start_state fails exactly for the mode whose start id is the dead state; dfa_wf is executed on the whole table of every real DFA of the bounded space (repr, hook H1). Bounded stand-in, exhaustive per automaton: every clause of AC evaluated on all reachable states x 256 bytes x both anchoring arguments of every automaton of the bounded pattern space.',
+        components=[(V, 'u1_search', {}), (V, 'u1_recipe', {}), (V, 'u3_dfa', {}), b('ac', families='small,abc,ci'), b('repr')],
+        level_text='The Automaton contract AC is the hypothesis the proved search loops consume (Verus). The search routine printed in the trait documentation is cut out of the doc comment and proved to return the same find_spec as the built-in search (u1_recipe). For dfa::DFA the accessors themselves are proved (u3_dfa) under the representation invariant dfa_wf: next_state never indexes out of bounds and returns a state id, the dead state is absorbing, is_dead/is_match/is_special/is_start are the id comparisons of the layout, dead and match imply special, match_len/match_pattern index a non-empty list of valid pattern ids, start_state fails exactly for the mode whose start id is the dead state; dfa_wf is executed on the whole table of every real DFA of the bounded space (repr, hook H1). Bounded stand-in, exhaustive per automaton: every clause of AC evaluated on all reachable states x 256 bytes x both anchoring arguments of every automaton of the bounded pattern space.',
         level_note=COMMON_NOTE,
     ),
     'C17': dict(
